@@ -19,4 +19,9 @@ theorem vars30 : GenV30.pkg_vars =
     bytes the model works on — no cached or hidden state takes part in it), and only these methods have a pointer receiver
     (every other method works on a copy and cannot change the object) -/
 theorem obj30 : GenV30.obj_fields = ["u0:uint8", "u1:uint8", "u2:uint8", "u3:uint8", "u4:uint8", "u5:uint8"] ∧ GenV30.obj_ptr_methods = ["Set"] := by decide
+/-- what the pointer-receiver methods do with their receiver: only `Set` assigns through it; none takes an address inside the
+    object, hands the pointer on, or keeps an alias -/
+theorem effects30 : GenV30.obj_ptr_effects = ["Set:writes"] := by decide
+/-- `sync.Pool`s of the package: none -/
+theorem pool30 : GenV30.pool_new = [] ∧ GenV30.pool_uses = [] := by decide
 end StateTie
